@@ -209,3 +209,134 @@ func lenBucket(n int) string {
 func purego() bool { return os.Getenv("VF_PUREGO") == "1" }
 
 var _ = ev.Hex
+
+// variant is one structured modification of a byte string.
+type variant struct {
+	name string
+	b    []byte
+}
+
+// structuredVariants returns multi-byte modifications of b confined to
+// b[lo:hi]: deltas repeating with period 1, 2, 4 and 8 bytes (every single-bit
+// mask of that width, so that the same bit is flipped in every word/half),
+// the full complement, halves swapped, rotations by bytes and words, byte
+// reversal, a delta confined to one half, constant fills and +-1/+-5 on the
+// little-endian integer.  Variants equal to b are left out.
+func structuredVariants(b []byte, lo, hi int) []variant {
+	var out []variant
+	n := hi - lo
+	if n <= 0 {
+		return nil
+	}
+	add := func(name string, f func(r []byte)) {
+		c := clone(b)
+		f(c[lo:hi])
+		if !bytes.Equal(c, b) {
+			out = append(out, variant{name, c})
+		}
+	}
+	add("complement", func(r []byte) {
+		for i := range r {
+			r[i] ^= 0xff
+		}
+	})
+	for _, k := range []int{1, 2, 4, 8} {
+		if n < 2*k {
+			continue
+		}
+		for bit := 0; bit < 8*k; bit++ {
+			bit := bit
+			add(fmt.Sprintf("period%d-bit", k), func(r []byte) {
+				for i := bit / 8; i < len(r); i += k {
+					r[i] ^= 1 << (bit % 8)
+				}
+			})
+		}
+		mask := pat(uint64(9000+k), k)
+		add(fmt.Sprintf("period%d-mask", k), func(r []byte) {
+			for i := range r {
+				r[i] ^= mask[i%k] | 1
+			}
+		})
+	}
+	if n >= 2 {
+		h := n / 2
+		add("swap-halves", func(r []byte) {
+			t := clone(r)
+			copy(r, t[h:2*h])
+			copy(r[h:], t[:h])
+		})
+		add("first-half-complement", func(r []byte) {
+			for i := 0; i < h; i++ {
+				r[i] ^= 0xff
+			}
+		})
+		add("second-half-complement", func(r []byte) {
+			for i := h; i < len(r); i++ {
+				r[i] ^= 0xff
+			}
+		})
+		m := pat(9100, h)
+		add("first-half-mask", func(r []byte) {
+			for i := 0; i < h; i++ {
+				r[i] ^= m[i] | 1
+			}
+		})
+		add("second-half-mask", func(r []byte) {
+			for i := 0; i < h; i++ {
+				r[h+i] ^= m[i] | 1
+			}
+		})
+		add("mirrored-mask", func(r []byte) {
+			for i := 0; i < h; i++ {
+				r[i] ^= m[i] | 1
+				r[h+i] ^= m[i] | 1
+			}
+		})
+		for _, rot := range []int{1, 4, 8, 12, n - 1} {
+			rot := rot
+			if rot <= 0 || rot >= n {
+				continue
+			}
+			add("rotate-bytes", func(r []byte) {
+				t := clone(r)
+				for i := range r {
+					r[i] = t[(i+rot)%len(t)]
+				}
+			})
+		}
+		add("reverse", func(r []byte) {
+			for i, j := 0, len(r)-1; i < j; i, j = i+1, j-1 {
+				r[i], r[j] = r[j], r[i]
+			}
+		})
+	}
+	add("zero-fill", func(r []byte) { clear(r) })
+	add("ff-fill", func(r []byte) {
+		for i := range r {
+			r[i] = 0xff
+		}
+	})
+	for _, d := range []int{1, 5} {
+		d := d
+		add("integer-plus", func(r []byte) {
+			carry := d
+			for i := 0; i < len(r) && carry > 0; i++ {
+				v := int(r[i]) + carry
+				r[i], carry = byte(v), v>>8
+			}
+		})
+		add("integer-minus", func(r []byte) {
+			borrow := d
+			for i := 0; i < len(r) && borrow > 0; i++ {
+				v := int(r[i]) - borrow
+				if v < 0 {
+					r[i], borrow = byte(v+256), 1
+				} else {
+					r[i], borrow = byte(v), 0
+				}
+			}
+		})
+	}
+	return out
+}
